@@ -685,6 +685,10 @@ type resultBuilder struct {
 
 func (r *resultBuilder) parseMsg(msg []byte, isUDP bool) (dnsmessage.Header, error) {
 	now := time.Now()
+
+	// Work on a copy of the expiry time and commit it only when the message is accepted,
+	// so that truncated UDP responses and partially parsed messages leave no trace.
+	expiresAt := r.expiresAt
 	var parser dnsmessage.Parser
 
 	// Parse header.
@@ -728,7 +732,7 @@ func (r *resultBuilder) parseMsg(msg []byte, isUDP bool) (dnsmessage.Header, err
 	case dnsmessage.RCodeFormatError, dnsmessage.RCodeServerFailure,
 		dnsmessage.RCodeNotImplemented, dnsmessage.RCodeRefused:
 		// RFC 9520 resolution failure caching.
-		r.expiresAt = now.Add(rcodeFailureCachingDuration)
+		expiresAt = now.Add(rcodeFailureCachingDuration)
 	default:
 		return dnsmessage.Header{}, fmt.Errorf("unknown RCode: %d", header.RCode)
 	}
@@ -750,8 +754,8 @@ func (r *resultBuilder) parseMsg(msg []byte, isUDP bool) (dnsmessage.Header, err
 
 		// Set minimum TTL.
 		ttl := now.Add(time.Duration(answerHeader.TTL) * time.Second)
-		if r.expiresAt.IsZero() || r.expiresAt.After(ttl) {
-			r.expiresAt = ttl
+		if expiresAt.IsZero() || expiresAt.After(ttl) {
+			expiresAt = ttl
 		}
 
 		// Skip non-A/AAAA RRs.
@@ -777,7 +781,7 @@ func (r *resultBuilder) parseMsg(msg []byte, isUDP bool) (dnsmessage.Header, err
 		}
 	}
 
-	if r.expiresAt.IsZero() {
+	if expiresAt.IsZero() {
 		// RFC 2308 negative caching: Parse authorities and use SOA record's TTL.
 		for {
 			authorityHeader, err := parser.AuthorityHeader()
@@ -789,7 +793,7 @@ func (r *resultBuilder) parseMsg(msg []byte, isUDP bool) (dnsmessage.Header, err
 			}
 
 			if authorityHeader.Type == dnsmessage.TypeSOA {
-				r.expiresAt = now.Add(time.Duration(authorityHeader.TTL) * time.Second)
+				expiresAt = now.Add(time.Duration(authorityHeader.TTL) * time.Second)
 			}
 
 			if err := parser.SkipAuthority(); err != nil {
@@ -801,6 +805,7 @@ func (r *resultBuilder) parseMsg(msg []byte, isUDP bool) (dnsmessage.Header, err
 
 	// Mark v4 or v6 as done.
 	if !header.Truncated || !isUDP {
+		r.expiresAt = expiresAt
 		switch header.ID {
 		case 4:
 			r.v4done = true
